@@ -23,11 +23,11 @@ def C07(ctx):
                 "single|chain) counted only if the seek succeeded and >=1 sample run was compared bit-exactly with the linear decode")
     ctx.assumptions = TRUST_COMMON + ["reference = linear ov_read_float decode on a fresh handle over the same bytes, itself "
                                       "checked for contiguity (tell == running count, bitstream index monotone, per-link length == samples encoded)"]
-    ctx.run("san", "vfseek", "c07", _n(ctx.tier, 800, 6000), extra_src=SPEC)
+    ctx.run("san", "vfseek", "c07", _n(ctx.tier, 2000, 6000), extra_src=SPEC)
     # begin-trimmed links (every granule position lowered by t, as a stream cutter leaves them): expected audio = the packet-level decode of the untrimmed packets from sample t on
     ctx.rule += (" | mode c07b: chains of 1-3 links, one of them begin-trimmed by 1..4000 samples (less than its first audio page): totals, linear read (position == samples delivered, "
                  "per-link count == length, audio == untrimmed decode from sample t), 25 (60) sample seeks each followed by 400 compared samples; keys carry the prefix begin-trimmed-link:")
-    ctx.run("san", "vfseek", "c07b", _n(ctx.tier, 160, 2400), extra_src=SPEC)
+    ctx.run("san", "vfseek", "c07b", _n(ctx.tier, 400, 2400), extra_src=SPEC)
     return ctx.finish(min_evals=2000, min_buckets=40)
 
 
@@ -39,7 +39,7 @@ def C08(ctx):
                 "or an out-of-range rejection whose position and next read were verified undisturbed")
     ctx.assumptions = TRUST_COMMON + ["t == duration exactly is judged for safety only (statement leaves it open)",
                                       "time seeks: |tell - (link start + floor((t - t_start)*rate))| <= 1"]
-    ctx.run("san", "vfseek", "c08", _n(ctx.tier, 450, 4500), gate=("C08",), extra_src=SPEC)
+    ctx.run("san", "vfseek", "c08", _n(ctx.tier, 900, 4500), gate=("C08",), extra_src=SPEC)
     return ctx.finish(min_evals=5000, min_buckets=40)
 
 
@@ -49,7 +49,7 @@ def C09(ctx):
                 "4 paging policies; evaluation = one per-link accounting comparison or one audio comparison of a link in the chain vs the "
                 "same link's bytes opened alone; bucket = (k, has zero-length link, has tiny link, first link short|long) with every clause held")
     ctx.assumptions = TRUST_COMMON + ["intact chains only (damaged chains belong to C03)"]
-    ctx.run("san", "vfmisc", "c09", _n(ctx.tier, 400, 6000), extra_src=SPEC)
+    ctx.run("san", "vfmisc", "c09", _n(ctx.tier, 1200, 6000), extra_src=SPEC)
     return ctx.finish(min_evals=1000, min_buckets=12)
 
 
@@ -60,7 +60,7 @@ def C10(ctx):
                 "bytes); evaluation = one full alternative decode compared bit-for-bit; bucket = (path, seek mode, schedule, request policy, "
                 "preload, single|chain)")
     ctx.assumptions = TRUST_COMMON
-    ctx.run("san", "vfmisc", "c10", _n(ctx.tier, 240, 3000), extra_src=SPEC)
+    ctx.run("san", "vfmisc", "c10", _n(ctx.tier, 720, 3000), extra_src=SPEC)
     return ctx.finish(min_evals=800, min_buckets=30)
 
 
@@ -72,7 +72,7 @@ def C17(ctx):
                 "byte-order arithmetic; bucket = (word, signed, endian, length class, channel class, misaligned) or a rejected bad request")
     ctx.assumptions = TRUST_COMMON + ["decoded values far outside +-1 come from 10x over-range input only until crafted streams are added (thorough: vgen)",
                                       "ties in rounding accept either neighbour"]
-    ctx.run("san", "vfmisc", "c17", _n(ctx.tier, 400, 3000), extra_src=SPEC)
+    ctx.run("san", "vfmisc", "c17", _n(ctx.tier, 1200, 3000), extra_src=SPEC)
     return ctx.finish(min_evals=3000, min_buckets=40)
 
 
@@ -85,7 +85,7 @@ def C19(ctx):
     ctx.assumptions = TRUST_COMMON + ["content formula asserted only when the old link is unambiguous, old audio is available without leaving its link and "
                                       "the primed buffer holds >= the lap length; bounds, tell and identity after the region always asserted",
                                       "window from the Vorbis I formula, tolerance 4e-6 relative"]
-    ctx.run("san", "vfmisc", "c19", _n(ctx.tier, 120, 2500), extra_src=SPEC)
+    ctx.run("san", "vfmisc", "c19", _n(ctx.tier, 300, 2500), extra_src=SPEC)
     return ctx.finish(min_evals=2000, min_buckets=40)
 
 
@@ -96,10 +96,10 @@ def C20(ctx):
                 "the first read; bucket = (count parity/size class) | (toggle direction) | (seek API, hs, target class, single|chain)")
     ctx.assumptions = TRUST_COMMON + ["refusal on 64-sample short blocks: every 8th case chains a model-made link with 64-sample blocks among encoder-made links and requires OV_EINVAL, flag clear, position/total unchanged and decoding identical to a twin that never asked",
                                       "for odd N the position after the last half-rate sample is N+1; not flagged"]
-    ctx.run("san", "vfmisc", "c20", _n(ctx.tier, 400, 4000), extra_src=SPEC)
+    ctx.run("san", "vfmisc", "c20", _n(ctx.tier, 1200, 4000), extra_src=SPEC)
     # begin-trimmed links (driver vfseek mode c07b): where the trim is applied exactly at full rate, the half-rate decode must deliver ceil(length/2) samples per link
     ctx.rule += " | plus the half-rate count clause on begin-trimmed links (vfseek mode c07b; its position/audio clauses belong to C07 and are not gated here)"
-    ctx.run("san", "vfseek", "c07b", _n(ctx.tier, 160, 2400), extra_src=SPEC, gate=("C20",))
+    ctx.run("san", "vfseek", "c07b", _n(ctx.tier, 400, 2400), extra_src=SPEC, gate=("C20",))
     return ctx.finish(min_evals=3000, min_buckets=25)
 
 
@@ -115,7 +115,7 @@ def C04(ctx):
                 "seekable vorbisfile (total == N, tell after open == 0, read count == N), streaming vorbisfile count == N; bucket = (N class, channel class, "
                 "rate band, rate-control kind, partition kind, lazy) with every clause held")
     ctx.assumptions = TRUST_COMMON + ["per-call submissions are capped at 131072 samples (larger single calls overflow the stack in _preextrapolate_helper: outside the explored range)"]
-    ctx.run("san", "encmon", "c04", _n(ctx.tier, 1500, 20000), extra_ld=WRAP16)
+    ctx.run("san", "encmon", "c04", _n(ctx.tier, 4500, 20000), extra_ld=WRAP16)
     return ctx.finish(min_evals=1500, min_buckets=100)
 
 
@@ -129,7 +129,7 @@ def C06(ctx):
     ctx.assumptions = TRUST_COMMON + ["the SNR envelope is an empirical regression bound calibrated on the pinned tree (after the fix: commits), not a psychoacoustic truth",
                                       "channel identity is asserted for q >= 0.1 only (point stereo below that)",
                                       "degradations inside the 6 dB margin, or purely perceptual ones, are invisible to this monitor"]
-    ctx.run("san", "encmon", "c06", _n(ctx.tier, 360, 6000), extra=[ENV06], extra_ld=WRAP16)
+    ctx.run("san", "encmon", "c06", _n(ctx.tier, 720, 6000), extra=[ENV06], extra_ld=WRAP16)
     if not os.path.exists(ENV06):
         ctx.harness_errors.append("missing " + ENV06)
     return ctx.finish(min_evals=300, min_buckets=60)
@@ -146,8 +146,8 @@ def C14(ctx):
     ctx.assumptions = TRUST_COMMON + ["duration of a packet = blocksize/2 samples (the manager's own accounting); true durations differ only at the two edge blocks of a run and a violation "
                                       "inside that edge allowance is keyed separately", "slack 0.5*short_per_long bits per packet for the manager's rint() of its per-block target, +8 bits",
                                       "direct drive includes lib/codec_internal.h to reach vorbis_block_internal.packetblob[]"]
-    ctx.run("san", "encmon", "c14", _n(ctx.tier, 200, 4000), extra_ld=WRAP16)
-    ctx.run("san", "encmon", "c14d", _n(ctx.tier, 480, 20000), extra_ld=WRAP16)
+    ctx.run("san", "encmon", "c14", _n(ctx.tier, 500, 4000), extra_ld=WRAP16)
+    ctx.run("san", "encmon", "c14d", _n(ctx.tier, 1200, 20000), extra_ld=WRAP16)
     return ctx.finish(min_evals=400, min_buckets=60)
 
 
@@ -159,7 +159,7 @@ def C15(ctx):
                 "encode 0/1/700/5000 samples, clear twice; evaluation = one set-up/init call judged (return in {0,OV_EINVAL,OV_EIMPL,OV_EFAULT}; failed one-step call "
                 "leaves an all-zero vorbis_info; success reports requested channels/rate); bucket = (outcome, entry point, channel class, rate class)")
     ctx.assumptions = TRUST_COMMON + ["vorbis_encode_ctl is not called on an info the library has already cleared (outside the documented typestate)"]
-    ctx.run("san", "encmon", "c15", _n(ctx.tier, 6000, 200000), extra_ld=WRAP16)
+    ctx.run("san", "encmon", "c15", _n(ctx.tier, 12000, 200000), extra_ld=WRAP16)
     return ctx.finish(min_evals=5000, min_buckets=40)
 
 
@@ -170,7 +170,7 @@ def C16(ctx):
                 "5 indices against a 10-line ASCII-only model; libc case mapping is replaced (link-time --wrap) by Turkish/Latin-1 style tables that also count calls; "
                 "evaluation = one comparison (packet parse, read-back, query_count, query); bucket = (count class, explicit|cstr, null entries, writer, size class)")
     ctx.assumptions = TRUST_COMMON + ["queries are issued on the read-back structure, and on the source structure only when it has no NULL entries"]
-    ctx.run("san", "encmon", "c16", _n(ctx.tier, 1500, 60000), extra_ld=WRAP16)
+    ctx.run("san", "encmon", "c16", _n(ctx.tier, 6000, 60000), extra_ld=WRAP16)
     return ctx.finish(min_evals=20000, min_buckets=20)
 
 
@@ -190,7 +190,7 @@ def C01(ctx):
                                       "classbook codes >= classifications^dim are never written (the specification wraps them, libvorbis treats them as end of packet)",
                                       "IMDCT scale and the single-entry-codebook convention follow libvorbis where the specification defers to it",
                                       "floor-0 amplitude bits <= 16; begin-trimming by a short first page is a vorbisfile matter (C07-C09), end trimming is judged here"]
-    ctx.run("san", "specmon", "c01", _n(ctx.tier, 1600, 40000), extra_src=SPEC, stack_mb=256)
+    ctx.run("san", "specmon", "c01", _n(ctx.tier, 3200, 40000), extra_src=SPEC, stack_mb=256)
     return ctx.finish(min_evals=8000, min_buckets=150)
 
 
@@ -202,7 +202,7 @@ def C05(ctx):
                 "(8*bytes-8, 8*bytes]; managed without hard max: never runs out of bits; the model parses the packet to the same bit position and the same block size; long-block "
                 "window flags equal the neighbours' block sizes; every third unmanaged encode is repeated through the direct packet interface vorbis_analysis(vb,&op) and must yield byte-identical packets; bucket = (rate-control kind, channel class, rate band, signal, coupling off, lowpass set)")
     ctx.assumptions = TRUST_COMMON + ["thorough tier model-parses one packet in four (all are checked by libvorbis)", "NaN/Inf input samples are outside the statement"]
-    ctx.run("san", "specmon", "c05", _n(ctx.tier, 800, 8000), extra_src=SPEC, stack_mb=256)
+    ctx.run("san", "specmon", "c05", _n(ctx.tier, 1600, 8000), extra_src=SPEC, stack_mb=256)
     return ctx.finish(min_evals=12000, min_buckets=100)
 
 
@@ -218,8 +218,8 @@ def C02(ctx):
     ctx.assumptions = TRUST_COMMON + ["blockin is called only directly after a successful synthesis/trackonly on that block; lapout only in the "
                                       "states vorbisfile calls it in (a real block since restart) - other orders are outside the documented protocol",
                                       "allocation failure is not injected (the library checks no malloc result and no property asks it to)"]
-    ctx.run("san", "pktmon", "c02", _n(ctx.tier, 3200, 120000), extra_src=SPEC, stack_mb=64)
-    ctx.run("san", "pktmon", "c02f", _n(ctx.tier, 3200, 120000), extra_src=SPEC, stack_mb=64)
+    ctx.run("san", "pktmon", "c02", _n(ctx.tier, 6400, 120000), extra_src=SPEC, stack_mb=64)
+    ctx.run("san", "pktmon", "c02f", _n(ctx.tier, 6400, 120000), extra_src=SPEC, stack_mb=64)
     # "within the default thread stack": the same workloads on the uninstrumented build under an 8 MiB stack (ASan inflates frames, so the
     # sanitized runs get 64 MiB); a crash here is a stack (or other) fault the sanitized run could not attribute to the stack limit
     ctx.run("plain", "pktmon", "c02f", _n(ctx.tier, 3200, 60000), extra_src=SPEC, stack_mb=8)
@@ -238,7 +238,7 @@ def C11(ctx):
                 "packet j >= k+2 must yield the same number of samples with the same bits (FNV hash over all channels) as in the clean decode; quick samples 24 k per stream "
                 "(always including the tail), thorough every k; bucket = (disturbance, head|mid|tail, convention, source)")
     ctx.assumptions = TRUST_COMMON + ["a disturbance may legitimately change packets k and k+1; equality is demanded from k+2 on"]
-    ctx.run("san", "pktmon", "c11", _n(ctx.tier, 800, 12000), extra_src=SPEC)
+    ctx.run("san", "pktmon", "c11", _n(ctx.tier, 2000, 12000), extra_src=SPEC)
     return ctx.finish(min_evals=20000, min_buckets=60)
 
 
@@ -251,7 +251,7 @@ def C13(ctx):
                 "the scenario (LeakSanitizer at exit names the allocation), no double free (ASan), close callback count == (1 if open succeeded else 0) and only inside "
                 "ov_clear; bucket = scenario class")
     ctx.assumptions = TRUST_COMMON + ["live-byte ledger = __sanitizer_get_current_allocated_bytes() of the ASan runtime (libogg is linked statically, so its allocations are counted too)"]
-    ctx.run("san", "pktmon", "c13", _n(ctx.tier, 3600, 90000), extra_src=SPEC)
+    ctx.run("san", "pktmon", "c13", _n(ctx.tier, 9000, 90000), extra_src=SPEC)
     if ctx.tier == "thorough":
         ctx.rule += " | thorough only: libFuzzer with LeakSanitizer after every unit over both targets of harness/fuzzmon.c (only leak reports gate here; other reports belong to C02/C03)"
         ctx.fuzz("both", jobs=16, runs=25000, leaks=True, only_leaks=True)
@@ -270,7 +270,7 @@ def C03(ctx):
                 "(open outcome, damage, open mode)")
     ctx.assumptions = TRUST_COMMON + ["after a failed open only ov_clear is called; after ov_test without ov_test_open only the queries the documentation allows",
                                       "termination = per-case CPU-time budget (ITIMER_PROF), not wall clock"]
-    ctx.run("san", "vffault", "c03", _n(ctx.tier, 5760, 120000), extra_src=SPEC, stack_mb=64, env_extra={"VH_CPU": "90"})
+    ctx.run("san", "vffault", "c03", _n(ctx.tier, 11520, 120000), extra_src=SPEC, stack_mb=64, env_extra={"VH_CPU": "90"})
     # the same cases on the uninstrumented build under the default 8 MiB stack (lapping buffers and residue scratch live on the stack)
     ctx.run("plain", "vffault", "c03", _n(ctx.tier, 2880, 40000), extra_src=SPEC, stack_mb=8, env_extra={"VH_CPU": "60"})
     if ctx.tier == "thorough":
